@@ -31,7 +31,10 @@ ASSUMPTIONS = ["pairing messages and the relay server are not exercised (no acco
 
 def corpus():
     return ["c03 k_all_fs cbe=fs sbe=fs seed=1 kinds=%s extra=" % ",".join(KINDS),
-            "c03 k_all_db cbe=db sbe=db seed=2 kinds=%s extra=z0:0|w0:0|o0|s0" % ",".join(KINDS)]
+            "c03 k_all_db cbe=db sbe=db seed=2 kinds=%s extra=z0:0|w0:0|o0|s0" % ",".join(KINDS),
+            # a folder exported and imported next to the original (same name: the importer renames the copy)
+            "c03 k_import_copy cbe=fs sbe=fs seed=3 kinds=note,login,file extra=i0:0|s0|s1",
+            "c03 k_import_copy_db cbe=db sbe=fs seed=4 kinds=note,list extra=i0:0|s0"]
 
 
 def gen_cases(rng, tier):
@@ -41,7 +44,7 @@ def gen_cases(rng, tier):
         ks = rng.sample(KINDS, rng.randrange(3, 8))
         extra = []
         for _ in range(rng.randrange(0, 6)):
-            extra.append(rng.choice(["c0:a", "u0:a", "x0:a", "c1:b", "u1:b", "s0", "s1", "z0:0", "w0:0", "p0:0", "o0", "h1:0:0", "a0:a", "f1:1", "m1:b:1"]))
+            extra.append(rng.choice(["c0:a", "u0:a", "x0:a", "c1:b", "u1:b", "s0", "s1", "z0:0", "w0:0", "p0:0", "o0", "h1:0:0", "a0:a", "f1:1", "m1:b:1", "i0:0", "i1:0"]))
         out.append("c03 g%d cbe=%s sbe=%s seed=%d kinds=%s extra=%s" % (
             j, rng.choice(["fs", "db"]), rng.choice(["fs", "db"]), rng.randrange(1, 1 << 30), ",".join(ks), "|".join(extra)))
     return out
